@@ -83,3 +83,8 @@ claim("C13",
  "Trusted: as C05.",
  "static analysis: sibling class comparison of normalised index-arithmetic fingerprints of the mutator cells",
  "DESIGN.md §3 Engine B, §4 C13")
+claim("C17",
+ "Static decision of the bookkeeping pairing of the streaming matcher: leaf events funnel into one helper with their own value, index increment exactly once per leaf and per container end, exactly one path push per container start and one pop per end, existential target selection, no found-flag shared between fragment arms, and token events of oj.Tokenizer in agreement with the reference at every byte (so a value cannot change on a slow path). PathMatch versus evaluator semantics, order and delivered values are not decided.",
+ "Trusted: as C01 for the event part; the pairing rules are specific to jp.MatchHandler (located through its public TokenHandler method names).",
+ "static analysis: call-count / dominance rules on the handler's helpers, existential-loop lint, scope lint, product event synchrony for the tokenizer",
+ "DESIGN.md §4 C17")
